@@ -66,3 +66,21 @@ Theorem C01_series_parallel_is_TU : forall m n M, wf_mat m n M = true -> is_tern
   SpModel.sp_greedy true m n M = true -> tu_bf m n M = true.
 Proof. exact SpTU.sp_ternary_TU. Qed.
 Print Assumptions C01_series_parallel_is_TU.
+
+(* ---------- the judge accepts EXACTLY the records that satisfy its specification: besides soundness (above) also completeness,
+   i.e. a record of a correct answer is never rejected (JudgeComplete1.v) ---------- *)
+From Cmr Require JudgeComplete1.
+Theorem C01_judge_tu_accepts_exactly_the_specification :
+    forall (rec cfg : list Z) (m n : nat) (M : mat) (rc v : Z) (sub : option (list nat * list nat))
+    (rest : list Z),
+    TuJudgeProofs.tu_input rec = Some (cfg, (m, n, M), rc, v, sub, rest) ->
+    TuModel.judge_tu rec = 0%Z <-> JudgeComplete1.tu_spec cfg m n M rc v sub.
+Proof. exact JudgeComplete1.judge_tu_iff. Qed.
+Print Assumptions C01_judge_tu_accepts_exactly_the_specification.
+Theorem C01_judge_tu_net_accepts_exactly_the_specification :
+    forall (rec cfg : list Z) (m n : nat) (M : mat) (rc v : Z) (sub : option (list nat * list nat))
+    (w : GraphModel.witness) (rest : list Z),
+    TuNetModel.tu_net_input rec = Some (cfg, (m, n, M), rc, v, sub, w, rest) ->
+    TuNetModel.judge_tu_net rec = 0%Z <-> JudgeComplete1.tu_net_spec cfg m n M rc v sub w.
+Proof. exact JudgeComplete1.judge_tu_net_iff. Qed.
+Print Assumptions C01_judge_tu_net_accepts_exactly_the_specification.
